@@ -51,15 +51,18 @@ def run(ctx, spec):
 
 PROPS = {"C09": dict(
     lean_modules=["Vore.Props.C09"],
-    theorems=["Vore.C09_no_panic_callfree", "Vore.C09_empty_input", "Vore.C09_empty_body", "Vore.C09_empty_backref_at_eof"],
+    theorems=["Vore.C09_no_panic_callfree", "Vore.C09_no_panic_guarded", "Vore.C09_empty_input", "Vore.C09_empty_body", "Vore.C09_empty_backref_at_eof"],
     run=run,
     manifest=dict(
         text="In the model every Go panic site is an outcome; proved in Lean: for every call-free find command and every "
              "input (empty input, end of input inside any construct, empty captures) findMatches returns .ok, never .panic "
              "(C09_no_panic_callfree, from the C01 simulation); the empty input and the empty body give [] for ANY "
              "instruction list (C09_empty_input, C09_empty_body); an empty back-reference succeeds without reading "
-             "(C09_empty_backref_at_eof). PARTIAL: calls and process code are not under a theorem here (type soundness of "
-             "accepted process code is C12's). Correspondence/search: every accepted generated program over all constructs "
+             "(C09_empty_backref_at_eof); with subroutines, recursion and global patterns whose predicates evaluate, every "
+             "program without unguarded recursion returns .ok on every input under every amount clause "
+             "(C09_no_panic_guarded, from C10_terminates_guarded_source). PARTIAL: process code (transforms, predicates) is "
+             "covered by C12's type soundness under its single-type hypothesis, not here; named loops are outside the "
+             "resolved language. Correspondence/search: every accepted generated program over all constructs "
              "is run on the real engine on texts ending inside constructs; any panic/hang is a violation keyed by its "
              "message; file inputs (empty file, sizes around the buffer) are exercised by C06/C07.",
         note="Trusted: Lean kernel; model fidelity by correspondence. Recorded findings (KNOWN_FINDINGS.txt): integer "
